@@ -17,7 +17,17 @@ use crate::rt::{block_on, Disc, RefStore, ScriptedUv, UvScript};
 
 #[derive(Clone, Debug, Serialize, Deserialize, PartialEq, Eq, Hash)]
 pub enum Step {
-    Register { challenge: [u8; 32], app: u8, handle: Vec<u8> },
+    Register {
+        challenge: [u8; 32],
+        app: u8,
+        handle: Vec<u8>,
+        /// register a key handle that was registered before (the k-th) instead of `handle`
+        #[serde(default)]
+        reuse: Option<u16>,
+        /// reference store only: the n-th store call of this registration fails with this status byte
+        #[serde(default)]
+        fault: Option<(u8, u8)>,
+    },
     /// authenticate with the k-th registered handle (or an unknown one), counter, presence flag bits, P1 index
     Authenticate { challenge: [u8; 32], known: Option<u16>, unknown: Vec<u8>, wrong_app: bool, counter: u32, flags: u8, p1: u8 },
 }
@@ -44,7 +54,7 @@ struct Reg {
     y: [u8; 32],
 }
 
-fn run_history<S: CredentialStore<PasskeyItem = Passkey> + Sync + Send>(ctx: &mut Ctx, store: S, single_slot: bool, h: &History) -> Result<(), String> {
+fn run_history<S: CredentialStore<PasskeyItem = Passkey> + Sync + Send>(ctx: &mut Ctx, store: S, single_slot: bool, h: &History, ref_handle: Option<RefStore>) -> Result<(), String> {
     let uv = ScriptedUv::new(UvScript::verified());
     let mut auth: Authenticator<S, ScriptedUv> = cer::build_authenticator(store, uv, &AuthCfg::default());
     let mut regs: Vec<Reg> = vec![];
@@ -53,11 +63,34 @@ fn run_history<S: CredentialStore<PasskeyItem = Passkey> + Sync + Send>(ctx: &mu
     for (i, step) in h.steps.iter().enumerate() {
         ctx.eval();
         match step {
-            Step::Register { challenge, app: a, handle } => {
+            Step::Register { challenge, app: a, handle, reuse, fault } => {
                 let application = app(*a);
+                let reused = reuse.filter(|_| !ever.is_empty()).map(|k| ever[idx(k, ever.len())].clone());
+                if reused.is_some() {
+                    ctx.class("register/key handle registered before");
+                }
+                let handle = reused.as_ref().unwrap_or(handle);
+                let faulted = match (&ref_handle, fault) {
+                    (Some(r), Some((n, code))) => {
+                        r.set_faults([((*n % 3) as usize, *code)].into_iter().collect());
+                        true
+                    }
+                    _ => false,
+                };
                 let res = catch_unwind(AssertUnwindSafe(|| block_on(U2fApi::register(&mut auth, RegisterRequest { challenge: *challenge, application }, handle)))).map_err(|_| format!("step {i}: register panicked: {}", crate::last_panic()))?;
-                let resp = res.map_err(|e| format!("step {i}: registration with a {}-byte key handle failed with {e:?} on an infallible store", handle.len()))?;
-                ctx.class("register");
+                if let Some(r) = &ref_handle {
+                    r.set_faults(Default::default());
+                }
+                let resp = match res {
+                    Ok(r) => r,
+                    Err(_) if faulted => {
+                        // the store refused: nothing is promised about this key handle any more than before
+                        ctx.class("register/refused while a store call failed");
+                        continue;
+                    }
+                    Err(e) => return Err(format!("step {i}: registration with a {}-byte key handle failed with {e:?} on an infallible store", handle.len())),
+                };
+                ctx.class(if faulted { "register/succeeded although a store fault was armed" } else { "register" });
                 let (x, y) = (resp.public_key.x, resp.public_key.y);
                 if resp.key_handle != *handle {
                     return Err(format!("step {i}: the response's key handle differs from the one supplied"));
@@ -175,9 +208,12 @@ fn run_history<S: CredentialStore<PasskeyItem = Passkey> + Sync + Send>(ctx: &mu
 
 pub fn check_history(ctx: &mut Ctx, h: &History) -> Result<(), String> {
     let r = match h.store % 3 {
-        0 => run_history(ctx, MemoryStore::new(), false, h),
-        1 => run_history(ctx, RefStore::new(Disc::Full), false, h),
-        _ => run_history(ctx, None::<Passkey>, true, h),
+        0 => run_history(ctx, MemoryStore::new(), false, h, None),
+        1 => {
+            let r = RefStore::new(Disc::Full);
+            run_history(ctx, r.clone(), false, h, Some(r))
+        }
+        _ => run_history(ctx, None::<Passkey>, true, h, None),
     };
     ctx.sample(&format!("history/store{}", h.store % 3), || json!(h));
     r
@@ -285,7 +321,8 @@ fn handle() -> impl Strategy<Value = Vec<u8>> {
 
 fn history() -> impl Strategy<Value = History> {
     let step = prop_oneof![
-        2 => (any::<[u8; 32]>(), any::<u8>(), handle()).prop_map(|(challenge, app, handle)| Step::Register { challenge, app, handle }),
+        2 => (any::<[u8; 32]>(), any::<u8>(), handle(), proptest::option::weighted(0.3, any::<u16>()), proptest::option::weighted(0.15, (0u8..3, prop_oneof![Just(0x28u8), Just(0x2E), Just(0x7F), Just(0x01), Just(0x06), any::<u8>()])))
+            .prop_map(|(challenge, app, handle, reuse, fault)| Step::Register { challenge, app, handle, reuse, fault }),
         3 => (any::<[u8; 32]>(), proptest::option::weighted(0.8, any::<u16>()), proptest::collection::vec(any::<u8>(), 0..20), proptest::bool::weighted(0.1), prop_oneof![Just(0u32), Just(u32::MAX), Just(0x0102_0304), any::<u32>()], any::<u8>(), any::<u8>())
             .prop_map(|(challenge, known, unknown, wrong_app, counter, flags, p1)| Step::Authenticate { challenge, known, unknown, wrong_app, counter, flags, p1 }),
     ];
@@ -322,7 +359,7 @@ pub fn run(ctx: &mut Ctx) {
     }
     // every handle length, once
     for len in (0..=255usize).filter(|_| fs) {
-        let h = History { store: (len % 3) as u8, steps: vec![Step::Register { challenge: [len as u8; 32], app: 1, handle: vec![0xA5; len] }, Step::Authenticate { challenge: [7; 32], known: Some(0), unknown: vec![], wrong_app: false, counter: len as u32, flags: len as u8, p1: len as u8 }] };
+        let h = History { store: (len % 3) as u8, steps: vec![Step::Register { challenge: [len as u8; 32], app: 1, handle: vec![0xA5; len], reuse: None, fault: None }, Step::Authenticate { challenge: [7; 32], known: Some(0), unknown: vec![], wrong_app: false, counter: len as u32, flags: len as u8, p1: len as u8 }] };
         if let Err(e) = check_history(ctx, &h) {
             ctx.violation("handle-lengths", json!(h), &e);
             break;
